@@ -390,8 +390,14 @@ func (p *ReverseProxy) clusterInvoke(srv *BfeServer, cluster *bfe_cluster.BfeClu
 			allowRetry = checkAllowRetry(cluster.RetryLevel(), outreq)
 
 			// if error is caused by backend server
-			rerr := err.(bfe_http.WriteRequestError)
-			if !rerr.CheckTargetError(request.RemoteAddr) {
+			isTargetErr := false
+			switch rerr := err.(type) {
+			case bfe_http.WriteRequestError:
+				isTargetErr = rerr.CheckTargetError(request.RemoteAddr)
+			case bfe_fcgi.WriteRequestError:
+				isTargetErr = rerr.CheckTargetError(request.RemoteAddr)
+			}
+			if !isTargetErr {
 				backend.OnFail(cluster.Name)
 			}
 
